@@ -143,7 +143,7 @@ class Gen:
         if kind in ("sym2sym", "sym2num", "sym2expr") and syms:
             for k in r.sample(syms, min(len(syms), r.choice([1, 1, 2]))):
                 if kind == "sym2sym":
-                    v = ("Y", r.choice(["Symbol('t')", "Symbol('u', real=True)", "Symbol('x')"]))
+                    v = ("Y", r.choice(["Symbol('t')", "Symbol('t2')", "Symbol('x')"]))  # same (empty) assumptions as the key
                 elif kind == "sym2num":
                     v = ("N", *r.choice([(2, 1), (3, 2), (5, 1), (7, 4)]))
                 else:
